@@ -212,7 +212,13 @@ HX void hx_dbs_far(uint64_t n, uint64_t op) {
       if (op == 0) (void) b.test(p);
       else if (op == 1) { const DynamicBitset& cb = b; (void) cb[p]; }
       else if (op == 2) { DynamicBitset s = b >> p; observe(s, Ref{0, r.n}); b >>= p; r.w = 0; }
+      // the growing operations: a position that no bitset can hold must end in an exception, not in an access outside the storage
+      else if (op == 3) { b.set(p); vs_assert(false, "set() at a position that cannot be held throws"); }
+      else if (op == 4) { b.reset(p); vs_assert(false, "reset() at a position that cannot be held throws"); }
+      else if (op == 5) { b.flip(p); vs_assert(false, "flip() at a position that cannot be held throws"); }
+      else if (op == 6) { b[p] = true; vs_assert(false, "operator[] at a position that cannot be held throws"); }
    } catch (const std::out_of_range&) { vs_assert(op < 2, "only element access may throw out_of_range"); }
+   catch (const std::length_error&) { vs_assert(op >= 3, "only the growing operations may throw length_error"); }
    observe(b, r);
 }
 // text/number conversion around the 64-bit boundary: sparse states (one bit at an arbitrary position,
